@@ -80,16 +80,31 @@ def scored (r : SentResult) : List (Tree × Str) :=
 
 inductive Fmt where
   | auto | autoExt | conll | ptb | deriv | ja
+  | prologEn | prologJa          -- `--format prolog` under the English / Japanese program
   deriving DecidableEq, Repr
 
 def Fmt.fn : Fmt → Tree → Except Err Str
   | .auto => autoOf | .autoExt => autoExtOf | .conll => conllOf | .ptb => ptbOf | .deriv => derivOf | .ja => jaOf
+  | .prologEn => fun _ => .ok [] | .prologJa => fun _ => .ok []      -- (not record formats: see `printText`)
+
+/-- the trees of the results, for the formats that print no score -/
+def treesOnly (results : List SentResult) : List (List Tree) :=
+  results.map fun r => (scored r).map fun (p : Tree × Str) => p.1
+
+def addNewline (r : Except Err Str) : Except Err Str :=
+  match r with
+  | .error e => .error e
+  | .ok s => .ok (s ++ [10])
 
 /-- `print_(results, format)`: the text of `to_string` and the newline `print` adds -/
 def printText (f : Fmt) (results : List SentResult) : Except Err Str :=
-  match toStringLines f.fn (f == .conll) (results.map scored) with
-  | .error e => .error e
-  | .ok s => .ok (s ++ [10])
+  match f with
+  | .prologEn => addNewline (prologEn (treesOnly results))
+  | .prologJa => addNewline (prologJa (treesOnly results))
+  | f =>
+    match toStringLines f.fn (f == Fmt.conll) (results.map scored) with
+    | .error e => .error e
+    | .ok s => .ok (s ++ [10])
 
 /-! ### the whole program -/
 
